@@ -332,15 +332,23 @@ namespace vh {
   }
 
   inline std::string read_tail(const std::string &path, size_t maxbytes) {
+    // head + tail: the head of a sanitizer report names the error and the innermost frames
     std::ifstream in(path, std::ios::binary);
     if (!in) return "";
     in.seekg(0, std::ios::end);
     auto sz = static_cast<size_t>(in.tellg());
-    size_t start = sz > maxbytes ? sz - maxbytes : 0;
-    in.seekg(static_cast<std::streamoff>(start));
-    std::string s(sz - start, '\0');
-    in.read(&s[0], static_cast<std::streamsize>(s.size()));
-    return s;
+    in.seekg(0);
+    if (sz <= maxbytes) {
+      std::string s(sz, '\0');
+      in.read(&s[0], static_cast<std::streamsize>(sz));
+      return s;
+    }
+    const size_t half = maxbytes / 2;
+    std::string head(half, '\0'), tail(half, '\0');
+    in.read(&head[0], static_cast<std::streamsize>(half));
+    in.seekg(static_cast<std::streamoff>(sz - half));
+    in.read(&tail[0], static_cast<std::streamsize>(half));
+    return head + "\n...[cut]...\n" + tail;
   }
 
   inline int run_main(int argc, char **argv, const CaseFn &fn, const std::function<void()> &init = {}) {
